@@ -40,7 +40,7 @@ ASSUMPTIONS = [
     "after a region teardown the viewer starts a new event-queue session (ack undefined)",
 ]
 MUST_REACH = {"polls": 3000, "replays_served": 50, "responses_lost": 100, "events_swallowed": 100, "emptied_responses": 20,
-              "injected_delivered": 100, "regions_announced": 30, "teardowns": 20, "states": 100, "histories_judged": 200}
+              "injected_delivered": 100, "regions_announced": 30, "teardowns": 20, "states": 100, "histories_judged": 200, "announcing_events_covered": 4}
 
 KINDS = ["1", "2", "A", "5"]
 ACTIONS = []
@@ -73,6 +73,10 @@ def serial_of(event):
             return "enable-%s" % body["SimulatorInfo"][0]["Port"]
         if "sim-ip-and-port" in body:
             return "eac-" + body["sim-ip-and-port"]
+        if event.get("message") == "TeleportFinish":
+            return "tp-%s" % body["Info"][0]["SimPort"]
+        if event.get("message") == "CrossedRegion":
+            return "cr-%s" % body["RegionData"][0]["SimPort"]
     return repr(event)[:60]
 
 
@@ -130,17 +134,33 @@ class World:
     def new_events(self, kind):
         evs = []
         if kind == "A":
-            which = self.next_serial % 2
+            which = self.next_serial % 4
             port = 14000 + self.next_serial
             addr = ("10.9.0.%d" % (self.next_serial % 200 + 1), port)
             if which == 0:
                 evs.append({"message": "EstablishAgentCommunication",
                             "body": {"agent-id": str(self.session.agent_id), "sim-ip-and-port": f"{addr[0]}:{addr[1]}",
                                      "seed-capability": f"https://sim9.example.invalid/cap/seed-{self.next_serial}"}})
+            elif which == 2:
+                # teleport: the new simulator is described in the message's Info block
+                evs.append({"message": "TeleportFinish", "body": {"Info": [{
+                    "AgentID": self.session.agent_id, "LocationID": struct.pack("!I", 4), "SimIP": socket.inet_aton(addr[0]), "SimPort": port,
+                    "RegionHandle": struct.pack("!Q", (3000 + self.next_serial) << 32 | 1000),
+                    "SeedCapability": f"https://sim9.example.invalid/cap/seed-{self.next_serial}", "SimAccess": 13,
+                    "TeleportFlags": struct.pack("!I", 1 << 12)}]}})
+            elif which == 3:
+                # border crossing: RegionData describes the simulator, Info only carries position and look-at
+                evs.append({"message": "CrossedRegion", "body": {
+                    "AgentData": [{"AgentID": self.session.agent_id, "SessionID": self.session.id}],
+                    "RegionData": [{"SimIP": socket.inet_aton(addr[0]), "SimPort": port,
+                                    "RegionHandle": struct.pack("!Q", (3000 + self.next_serial) << 32 | 1000),
+                                    "SeedCapability": f"https://sim9.example.invalid/cap/seed-{self.next_serial}"}],
+                    "Info": [{"Position": [1.0, 2.0, 3.0], "LookAt": [1.0, 0.0, 0.0]}]}})
             else:
                 evs.append({"message": "EnableSimulator", "body": {"SimulatorInfo": [{
                     "Handle": struct.pack("!Q", (3000 + self.next_serial) << 32 | 1000), "IP": socket.inet_aton(addr[0]),
                     "Port": port}]}})
+            self.ctx.cover("announcing_events", evs[-1]["message"])
             self.announced[addr] = self.announced.get(addr, 0) + 1
             self.last_announced = addr
             self.ctx.count("regions_announced")
@@ -261,7 +281,7 @@ class World:
         self.pending_injected = []
         # region registration
         swallowed_announce = any(s in self.addon.swallow for s in serials if isinstance(s, str) and
-                                 (s.startswith("enable-") or s.startswith("eac-")))
+                                 s.startswith(("enable-", "eac-", "tp-", "cr-")))
         if kind == "A" and swallowed_announce:
             # an announcement an addon swallowed is not acted upon
             self.announced.pop(self.last_announced, None)
